@@ -43,7 +43,11 @@ def run_one(d, tier, props=None):
             lines = [l for l in r.stdout.splitlines() if l.startswith("  ") or l.startswith("VIOLATION") or l.startswith("INFRA")]
             out[pid] = dict(rc=r.returncode, wall_s=round(time.time() - t0, 1), first=(lines[0][:400] if lines else ""))
         res["checks"] = out
-        res["result"] = "detected" if out[prop]["rc"] == 1 else ("inconclusive" if out[prop]["rc"] == 2 else "MISSED")
+        own = out.get(prop)
+        if own is None:
+            res["result"] = "cross-only"
+        else:
+            res["result"] = "detected" if own["rc"] == 1 else ("inconclusive" if own["rc"] == 2 else "MISSED")
         return res
     finally:
         shutil.rmtree(scratch, ignore_errors=True)
@@ -51,13 +55,15 @@ def run_one(d, tier, props=None):
 
 def main():
     args = sys.argv[1:]
-    tier, allp, dirs = "quick", False, []
+    tier, allp, dirs, only = "quick", False, [], None
     while args:
         a = args.pop(0)
         if a == "--tier":
             tier = args.pop(0)
         elif a == "--all-props":
             allp = True
+        elif a.startswith("--props="):
+            only = a.split("=", 1)[1].split(",")
         elif a == "--seeded":
             base = os.path.join(VERIF, "seeded")
             dirs += sorted(os.path.join(base, x) for x in os.listdir(base) if os.path.exists(os.path.join(base, x, "patch.diff")))
@@ -67,6 +73,8 @@ def main():
         else:
             dirs.append(a)
     props = None
+    if only:
+        props = only
     if allp:
         sys.path.insert(0, VERIF)
         from checks import PROPS
